@@ -329,6 +329,16 @@ def _run_rest(ctx, res):
     limit_names = {p for p in ik.params if 'limit' in p}
     counters = {n.target.id for n in ast.walk(ik.node) if isinstance(n, ast.AugAssign) and isinstance(n.target, ast.Name)}
     early = _common.guards_of(ik.node, lambda x: isinstance(x, (ast.Break, ast.Return)))
+    # a `break` leaves its own (innermost) loop only: breaks of loops nested in the listing loop (a loop over the predicates) do not end the listing
+    all_loops = [l for l in ast.walk(ik.node) if isinstance(l, (ast.For, ast.While))]
+    def innermost_loop(x):
+        best = None
+        for l in all_loops:
+            if any(y is x for b_ in l.body for y in ast.walk(b_)) and (best is None or any(y is l for y in ast.walk(best))):
+                best = l
+        return best
+    listing = [l for l in all_loops if not any(l is not o and any(y is l for y in ast.walk(o)) for o in all_loops)]
+    early = [(st_, cs) for st_, cs in early if not isinstance(st_, ast.Break) or innermost_loop(st_) in listing]
     bad_early = []
     for st, conds in early:
         lits = [l for t, pol in conds for l in _common.split_literals(t, pol)]
@@ -500,7 +510,7 @@ def limit_counter(ik):
     loops = [n for n in ast.walk(ik.node) if isinstance(n, (ast.For, ast.While)) and any(x is inc for x in ast.walk(n))]
     if not loops:
         return False, 'counter `%s` is not incremented in the listing loop' % cmpv
-    loop = loops[-1]
+    loop = loops[0]          # the listing loop (outermost): a predicate loop nested in it is part of one round
     try:
         pi = _paths.paths_to(loop.body, lambda x: x is inc)
         py = _paths.paths_to(loop.body, lambda x: isinstance(x, ast.Yield))
